@@ -8,7 +8,7 @@ import engine_codec
 from checks_codec import short, regress_cases, typed_by
 
 MUSTS = [None, b"M", b"M,P", b"P,M", b"V", b" M", b"M ", b"MP", b"", b"P", b"m", b"M,M", b",M", b"M,", b"V,M,P", b"P,V", b"M;P"]
-NAMES = [b"A", b"B", b"Session-Id", b"X-Y", b"a", b"Origin-Host", b"N1", b"N2", b"N3"]
+NAMES = [b"A", b"B", b"Session-Id", b"X-Y", b"a", b"Origin-Host", b"N1", b"N2", b"N3", b"3GPP-Charging-Id", b"TGPP-Charging-Id", b"3GPP-X"]
 APPN = [b"App-A", b"App-B", b"Charging Control"]
 CMDN = [b"Cmd-A", b"Cmd-B", b"Credit-Control"]
 TYNAMES = [TY_XML_NAME[t] for t in TYS[1:]] + ["Unsigned16", "utf8string", "UTF8String ", "", "Integer", "Float", "OctetString2", "IPv4Address", "Group"]
@@ -519,6 +519,35 @@ def check_C15(chk, tier, seed):
                 cases.append(f"X {did} {xb(one_avp_frame(c, v, SAMPLE_DATA[ty]))}")
                 # the payload of another declaration's type: typed by the LAST declaration all the same (refused if it does not fit it)
                 expect.append(("kind-or-refuse", last, f"({c}, {v}) declared under applications {order} in this order, payload of a {TY_XML_NAME[ty]}"))
+    # many Grouped AVPs side by side (40 at top level each with one member; one group with 40 grouped members): the nesting limit is
+    # about depth, not about how many groups a message holds - every one is typed
+    did = f"t{k}"
+    k += 1
+    apps = [dict(name=b"GenApp", id=4, cmds=[], avps=[dict(code=6100, vendor=None, name=b"Box", tyname=b"Grouped", must=None), dict(code=6101, vendor=None, name=b"Leaf", tyname=b"Unsigned32", must=None)])]
+    prelude.append(dict_line(did, [load_toks(gen_xml(apps), apps)]))
+    leafb = gen.be(6101, 4) + b"\0" + gen.be(12, 3) + gen.be(7, 4)
+    boxb = gen.be(6100, 4) + b"\0" + gen.be(8 + len(leafb), 3) + leafb
+    hdr = lambda body: bytes([1]) + gen.be(20 + len(body), 3) + bytes([0x80]) + gen.be(272, 3) + gen.be(4, 4) + gen.be(1, 4) + gen.be(2, 4) + body
+    for nsib in (33, 40, 70):
+        cases.append(f"X {did} {xb(hdr(boxb * nsib))}")
+        expect.append(("kind-or-refuse", "grp", f"{nsib} sibling Grouped AVPs at top level"))
+        cases.append(f"X {did} {xb(hdr(gen.be(6100, 4) + bytes(1) + gen.be(8 + len(boxb) * nsib, 3) + boxb * nsib))}")
+        expect.append(("kind-or-refuse", "grp", f"one Grouped AVP with {nsib} Grouped members"))
+    # two adjacent AVPs with the same code, both under a vendor, different vendors (v then w, w then v), at top level and inside a group:
+    # each is typed by its own entry - or refused where it has none
+    did = f"t{k}"
+    k += 1
+    apps = [dict(name=b"GenApp", id=4, cmds=[], avps=[dict(code=6200, vendor=10415, name=b"Twin-V", tyname=b"Unsigned32", must=None), dict(code=6200, vendor=9, name=b"Twin-W", tyname=b"UTF8String", must=None),
+                                                       dict(code=6201, vendor=10415, name=b"Lone-V", tyname=b"Unsigned32", must=None), dict(code=6100, vendor=None, name=b"Box", tyname=b"Grouped", must=None)])]
+    prelude.append(dict_line(did, [load_toks(gen_xml(apps), apps)]))
+    vavp = lambda c, v, data: gen.be(c, 4) + b"\x80" + gen.be(12 + len(data), 3) + gen.be(v, 4) + data + b"\0" * ((4 - len(data) % 4) % 4)
+    for (first, second, ty2) in (((6200, 10415, gen.be(5, 4)), (6200, 9, b"text"), "utf"), ((6200, 9, b"text"), (6200, 10415, gen.be(5, 4)), "u32"),
+                                 ((6201, 10415, gen.be(5, 4)), (6201, 9, gen.be(6, 4)), None), ((6201, 10415, gen.be(5, 4)), (6201, 77, gen.be(6, 4)), None)):
+        pair = vavp(*first) + vavp(*second)
+        for wrap in (False, True):
+            body = pair if not wrap else gen.be(6100, 4) + bytes(1) + gen.be(8 + len(pair), 3) + pair
+            cases.append(f"X {did} {xb(hdr(body))}")
+            expect.append(("adjacent", ty2, f"AVP ({second[0]}, vendor {second[1]}) right after ({first[0]}, vendor {first[1]})" + (" inside a group" if wrap else ""), None, second[1]))
     # codes that a lossy table would fold onto a defined one: c + k*1024, c + 2^16, c + 2^20, c + 2^24, c + 2^31, c with its
     # octets swapped - none of them is defined, each must be refused; and the defined code itself still decodes
     did = f"t{k}"
@@ -626,6 +655,22 @@ def check_C15(chk, tier, seed):
                 if kind != ex[1]:
                     ok = False
                     chk.violation(f"{ex[2]}: the value came back as kind {kind}; the entry decides the kind, not the size of the payload", dict(case=c, impl=short(im, 1000)))
+        elif ex[0] == "adjacent":
+            _, ty2, desc, _, _ = ex
+            if ty2 is None:
+                if not im.startswith("ERR"):
+                    ok = False
+                    chk.violation(f"{desc}: there is no entry for that pair, yet the frame was accepted", dict(case=c, impl=short(im, 1000)))
+            elif im.startswith("OK "):
+                avps = parse_result(im)["msg"]["avps"]
+                last = avps[-1] if avps[-1]["val"][0] == "L" else avps[-1]["val"][1][-1]
+                kind = KIND_TY.get(last["val"][1]) if last["val"][0] == "L" else "grp"
+                if kind != ty2:
+                    ok = False
+                    chk.violation(f"{desc}: typed {kind}, its own entry says {ty2}", dict(case=c, impl=short(im, 1000)))
+            else:
+                ok = False
+                chk.violation(f"{desc}: both pairs have entries, yet the frame was refused", dict(case=c, impl=short(im, 1000)))
         elif ex[0] in ("scope", "nested", "nested2"):
             _, ty, tyname, scope, wire_v = ex
             want_ok = ty is not None and ty != "unk"
